@@ -331,6 +331,47 @@ def random_program(rng: random.Random, max_nodes=10, allow_bad=True):
     return ops, 0
 
 
+def productive_cyclic_program(rng, max_nodes=10):
+    """cyclic graphs in which every decision can be completed with valid leaves: every choose-one decision gets a
+    valid leaf among its children, do-all decisions only point to valid leaves or choose-one decisions; back edges
+    from choose-one decisions to any non-root decision close the cycles"""
+    n = rng.randint(4, max(4, max_nodes))
+    kinds = [('D', False, rng.random() < 0.5, None)]
+    for i in range(1, n):
+        m = rng.random()
+        if m < 0.3:
+            kinds.append(('D', False, rng.random() < 0.5, None))
+        elif m < 0.45:
+            kinds.append(('D', True, rng.random() < 0.5, None))
+        else:
+            kinds.append(('L', rng.random() < 0.75, None))
+    ones = [i for i, k in enumerate(kinds) if k[0] == 'D' and not k[1]]
+    alls = [i for i, k in enumerate(kinds) if k[0] == 'D' and k[1]]
+    valid = [i for i, k in enumerate(kinds) if k[0] == 'L' and k[1]]
+    if not valid:
+        kinds.append(('L', True, None))
+        valid = [len(kinds) - 1]
+    n = len(kinds)
+    edges = []
+    for i in range(1, n):                      # reachability
+        cands = [d for d in ones + alls if d < i] or [0]
+        s = rng.choice(cands)
+        if s in alls and not (kinds[i][0] == 'L' and kinds[i][1]) and i not in ones:
+            s = rng.choice([d for d in ones if d < i] or [0])
+        edges.append((s, i))
+    for d in ones:                             # a valid leaf under every choose-one decision
+        edges.append((d, rng.choice(valid)))
+    for d in alls:
+        if not any(s == d for s, _ in edges):
+            edges.append((d, rng.choice(valid)))
+    for _ in range(rng.randint(1, 4)):         # cycles
+        s = rng.choice(ones)
+        t = rng.choice([d for d in ones + alls if d != 0] or [rng.choice(valid)])
+        edges.append((s, t))
+    rng.shuffle(edges)
+    return list(kinds) + [('T', s, t) for s, t in edges], 0
+
+
 def complete_paths(ops, root, depth=6, limit=40):
     """enumerate complete paths (index lists) up to a number of choices, by simulation"""
     kinds, outs = _tables(ops)
